@@ -22,16 +22,45 @@ func (fr *Frame) call(in ssa.Instruction, c *ssa.CallCommon, st *State, pc Term)
 	if !fr.top || fr.contract == nil || fr.lastCallee == "" {
 		return res
 	}
+	lastCallee, lastOrd := fr.lastCallee, fr.lastOrd
 	for _, cs := range fr.contract.CallSites {
-		if cs.Clause.Kind != "callassume" {
+		if cs.Clause.Kind != "callassume" && cs.Clause.Kind != "calllet" {
 			continue
 		}
-		if calleeMatches(cs.Callee, fr.lastCallee) && (cs.Ordinal == 0 || cs.Ordinal == fr.lastOrd) {
+		if calleeMatches(cs.Callee, lastCallee) && (cs.Ordinal == 0 || cs.Ordinal == lastOrd) {
 			fr.csMatched[cs] = true
 			env := fr.specEnv(st, pc)
 			env.old = pre
 			vars := map[string]TV{}
 			sig := c.Signature()
+			if cs.Clause.Kind == "calllet" {
+				// "at call X let NAME = E": name the value of E in the state
+				// right after the call; the name lives in the symbolic store
+				// (path-sensitive, havoced by loops that contain the call)
+				as, ats := fr.callArgTerms(c)
+				for i, a := range as {
+					vars[fmt.Sprintf("arg%d", i)] = TV{a, ats[i]}
+				}
+				for i, r := range res {
+					vars[fmt.Sprintf("result%d", i)] = TV{r, sig.Results().At(i).Type()}
+				}
+				if len(res) == 1 {
+					vars["result"] = TV{res[0], sig.Results().At(0).Type()}
+				}
+				tv, err := env.with(vars).eval(cs.Clause.E)
+				if err != nil {
+					fr.vc.specError(cs.Clause, err)
+					continue
+				}
+				st.cells[letKey{cs.Let}] = fr.vc.def("let:"+cs.Let, tv.T)
+				if fr.letTypes == nil {
+					fr.letTypes = map[string]types.Type{}
+					fr.letSorts = map[string]Sort{}
+				}
+				fr.letTypes[cs.Let] = tv.Typ
+				fr.letSorts[cs.Let] = tv.T.Sort
+				continue
+			}
 			for i, r := range res {
 				vars[fmt.Sprintf("result%d", i)] = TV{r, sig.Results().At(i).Type()}
 			}
@@ -232,6 +261,51 @@ func (fr *Frame) callInner(in ssa.Instruction, c *ssa.CallCommon, st *State, pc 
 		res = append(res, fr.freshTyped("res:"+shortCallee(calleeName), sig.Results().At(i).Type(), st, pc))
 	}
 	return res
+}
+
+// letKey keys a spec-level name bound by "at call X let NAME = E" in
+// State.cells.
+type letKey struct{ name string }
+
+func (k letKey) Name() string                  { return "let:" + k.name }
+func (k letKey) String() string                { return "let:" + k.name }
+func (k letKey) Type() types.Type              { return tInt }
+func (k letKey) Parent() *ssa.Function         { return nil }
+func (k letKey) Referrers() *[]ssa.Instruction { return nil }
+func (k letKey) Pos() token.Pos                { return token.NoPos }
+
+// callArgTerms returns the argument terms of a translated call as the
+// call-site clauses see them (arg0 = receiver for interface method calls).
+func (fr *Frame) callArgTerms(c *ssa.CallCommon) ([]Term, []types.Type) {
+	var args []Term
+	var ts []types.Type
+	if c.IsInvoke() {
+		args = append(args, fr.val(c.Value))
+		ts = append(ts, c.Value.Type())
+	}
+	for _, a := range c.Args {
+		args = append(args, fr.val(a))
+		ts = append(ts, a.Type())
+	}
+	return args, ts
+}
+
+// calleeNameOf names the callee of a call the way callInner does, without
+// translating it (used to find the calls that bind let names inside loops).
+func (fr *Frame) calleeNameOf(c *ssa.CallCommon) string {
+	if _, ok := c.Value.(*ssa.Builtin); ok {
+		return ""
+	}
+	if c.IsInvoke() {
+		return fr.vc.specs.ifaceName(c)
+	}
+	if ci, ok := fr.closures[c.Value]; ok {
+		return funcName(ci.fn)
+	}
+	if callee := c.StaticCallee(); callee != nil {
+		return funcName(callee)
+	}
+	return fieldFuncName(c.Value)
 }
 
 // calleeMatches reports whether a call-site clause written for pattern names
@@ -801,6 +875,7 @@ func (fr *Frame) appendBuiltin(c *ssa.CallCommon, st *State, pc Term) Term {
 	inPlace := vc.def("inplace", le(newLen, sCap(s)))
 	// fresh backing array for the reallocating case
 	nb := vc.allocRef(st, pc)
+	vc.assumeRType(pc, nb, c.Args[0].Type())
 	ncap := vc.fresh("appcap", SInt)
 	vc.assume(pc, le(newLen, ncap))
 	res := vc.def("app", ite(inPlace, mkSlice(sBase(s), sOff(s), newLen, sCap(s)), mkSlice(nb, tZero, newLen, ncap)))
@@ -833,6 +908,7 @@ func (fr *Frame) mapHeaps(st *State, mt types.Type) (has, val, ln Term, ks, vs S
 func (fr *Frame) makeMap(in *ssa.MakeMap, st *State, pc Term) {
 	vc := fr.vc
 	ref := vc.allocRef(st, pc)
+	vc.assumeRType(pc, ref, in.Type())
 	has, _, ln, ks, _ := fr.mapHeaps(st, in.Type())
 	st.heaps[mapHasName(in.Type())] = vc.def("h", store(has, ref, Term{fmt.Sprintf("((as const %s) false)", arraySort(ks, SBool)), arraySort(ks, SBool)}))
 	st.heaps[mapLenName(in.Type())] = vc.def("h", store(ln, ref, tZero))
